@@ -576,7 +576,25 @@ def gen_waiter_struct(rng, k):
     return [{'$aw': i, 'form': rng.choice(forms)} for i in range(k)]
 
 
+def run_axis(case, ctx):
+    """a companion is a companion whatever the parameter is called - also when it is called `axis`"""
+    from pyg_base import loop
+    f = lambda x, axis='da': ('r', x, axis)
+    lifted = loop(list, tuple, dict)(f)
+    x = codec.dec(case['x'])
+    comp = codec.dec(case['comp'])
+    st, got = ctx.call(lifted, x, axis=comp) if case['by'] == 'kw' else ctx.call(lifted, x, comp)
+    exp = lift_model(case['x'], x, [comp], {}, lambda v, a='da': ('r', v, a))
+    mech = None
+    if st == 'ok' and not same(got, exp) and case['by'] == 'kw' and same(got, lift_model(case['x'], x, [], {}, lambda v, a='da': ('r', v, a))):
+        mech = 'loop-consumes-a-keyword-called-axis'           # known finding: the wrapper pops `axis` for itself, the leaf function runs with its default
+    ctx.check('lift_model', st == 'ok' and same(got, exp), lambda: 'loop(list,tuple,dict)(f)(%r, axis=%r passed %s) = %s %r, model %r' % (case['x'], case['comp'], case['by'], st, got, exp), mech=mech)
+    ctx.cls('lift:companion_called_axis')
+
+
 def run_case(case, ctx):
+    if case['kind'] == 'axis':
+        return run_axis(case, ctx)
     return {'lift': run_lift, 'helpers': run_helpers, 'zip': run_zip, 'waiter': run_waiter, 'replace_list': run_replace_list}[case['kind']](case, ctx)
 
 
@@ -606,6 +624,11 @@ def run(spec, ctx):
         ctx.run_case(case, run_case)
         if ctx.full():
             return
+    for x_, comp_ in (([1, 2], [10, 20]), ([1, 2], 7), ({'a': 1, 'b': 2}, {'a': 10, 'b': 20}), ({'$t': [1, 2, 3]}, 'c'), ([[1, 2], [3]], [10, 20])):
+        for by in ('kw', 'pos'):
+            case = {'kind': 'axis', 'x': x_, 'comp': comp_, 'by': by}
+            ctx.case(case)
+            ctx.run_case(case, run_case)
     for i in range(spec['nw']):
         rng = random.Random('C19w/%d/%d/%d' % (spec['seed'], spec['shard'], i))
         k = rng.choice([1, 2, 3, 4, 4, 5, 6]) if spec['tier'] == 'thorough' else rng.choice([2, 3, 4, 5])
